@@ -176,9 +176,12 @@ func c07Alias(concurrent bool) {
 	s := root.Tagged(map[string]string{"k": first})
 	s.Counter("x").Inc(v1)
 	var s2 Scope
+	preClosed := false
 	app := func() {
 		// recorded while a pass may be half-way through the aliases of this scope
-		s.Counter("x").Inc(v0)
+		if !preClosed {
+			s.Counter("x").Inc(v0)
+		}
 		s.(io.Closer).Close()
 		reacquire := 2
 		if !concurrent {
@@ -207,13 +210,22 @@ func c07Alias(concurrent bool) {
 	} else {
 		if verifrt.Choose("pass-before-reacquire", 2) == 1 {
 			s.Counter("x").Inc(v0)
-			v0 += v0
 			s.(io.Closer).Close()
 			root.reportRegistry()
+			preClosed = true
 		}
 		app()
 	}
 	verifrt.Assert("c07.alias.scope-after-close-is-live", !s2.(*scope).closed.Load())
+	if !concurrent && verifrt.Choose("second-cycle", 2) == 1 {
+		// a second close / re-acquire cycle, this time through the other spelling (which may
+		// still be an alias of the first, long closed scope)
+		s2.(io.Closer).Close()
+		s3 := root.Tagged(map[string]string{"k": first})
+		verifrt.Assert("c07.alias.second-cycle.scope-after-close-is-live", !s3.(*scope).closed.Load())
+		verifrt.Assert("c07.alias.second-cycle.fresh-scope", s3.(*scope) != s2.(*scope))
+		s2 = s3
+	}
 	root.reportRegistry()
 	root.reportRegistry()
 	verifrt.Assert("c07.alias.delivered-exactly-once", sumNamed(&rec.vReporter, "x") == v0+v1+v2)
